@@ -25,9 +25,12 @@
 #include "explore.h"
 #include "refcal.h"
 
-enum { R_YMD, R_YMCW, R_YWD, R_YD, R_BIZDA, R_DAISY, NREP, R_SEXY = NREP, R_SEXYFMT, NREPDT };
-static const char *const rep_name[NREPDT] = {"ymd", "ymcw", "ywd", "yd", "bizda", "daisy", "epoch@", "epoch%s"};
-static const dt_dtyp_t rep_typ[NREP] = {DT_YMD, DT_YMCW, DT_YWD, DT_YD, DT_BIZDA, DT_DAISY};
+enum { R_YMD, R_YMCW, R_YWD, R_YD, R_BIZDA, R_DAISY, R_LDN, R_JDN, R_MDN, NREP, R_SEXY = NREP, R_SEXYFMT, NREPDT };
+static const char *const rep_name[NREPDT] = {"ymd", "ymcw", "ywd", "yd", "bizda", "daisy", "ldn", "jdn", "mdn", "epoch@", "epoch%s"};
+static const dt_dtyp_t rep_typ[NREP] = {DT_YMD, DT_YMCW, DT_YWD, DT_YD, DT_BIZDA, DT_DAISY, DT_LDN, DT_JDN, DT_MDN};
+/* input format for the day numbers (documented input formats: -i ldn | jdn | mdn) */
+static const char *const rep_ifmt[NREP] = {NULL, NULL, NULL, NULL, NULL, NULL, "ldn", "jdn", "mdn"};
+#define REP_DAYNUM_P(r)	((r) == R_LDN || (r) == R_JDN || (r) == R_MDN)
 enum { P_PARSE, P_CONV, P_ADD, NPROD };
 static const char prod_name[NPROD] = {'P', 'C', 'A'};
 
@@ -47,6 +50,9 @@ date_text(int rep, const struct rc_day *p, char *buf, size_t bsz)
 		}
 		snprintf(buf, bsz, "%04d-%02d-%02db", p->y, p->m, p->bd);
 		return 1;
+	case R_LDN: snprintf(buf, bsz, "%lld", (long long)rc_ldn(p->rd)); return 1;
+	case R_JDN: snprintf(buf, bsz, "%.1f", rc_jdn(p->rd)); return 1;
+	case R_MDN: snprintf(buf, bsz, "%lld", (long long)rc_mdn(p->rd)); return 1;
 	}
 	return 0;
 }
@@ -92,13 +98,14 @@ mkdate(int rep, int prod, int rd, struct dt_dt_s *out)
 		if (!date_text(rep, p, text, sizeof(text))) {
 			return 0;
 		}
-		v = dt_strpdt(text, NULL, NULL);
+		v = dt_strpdt(text, rep_ifmt[rep], NULL);
 		if (dt_unk_p(v)) {
 			return 0;
 		}
 		break;
 	case P_CONV:
-		if (rep == R_DAISY || rep == R_YMD) {
+		if (rep == R_DAISY || rep == R_YMD || REP_DAYNUM_P(rep)) {
+			/* day numbers are explored as read with -i ldn|jdn|mdn only */
 			return 0;
 		}
 		date_text(R_YMD, p, text, sizeof(text));
@@ -113,7 +120,7 @@ mkdate(int rep, int prod, int rd, struct dt_dt_s *out)
 		break;
 	case P_ADD: {
 		struct dt_dt_s w;
-		if (rd == 0 || !mkdate(rep, P_PARSE, rd - 1, &w)) {
+		if (rd == 0 || REP_DAYNUM_P(rep) || !mkdate(rep, P_PARSE, rd - 1, &w)) {
 			return 0;
 		}
 		v = dt_dtadd(w, dur_1d);
@@ -170,6 +177,19 @@ judge_dates(int rep, int pa, int pb, int rda, int rdb, const struct dt_dt_s *a, 
 	ex_outcome(ex_hash_mix(ex_hash_mix((uint64_t)(r1 + 2) * 5 + (uint64_t)(r2 + 2), a->d.u), b->d.u));
 	for (int f = 0; f < 2; f++) {
 		int r = f ? r2 : r1;
+		/* a representation-wide defect fails on 10^7 pairs: after the first case of a class
+		 * only its count and range are kept (same aggregation as ex_viol, without the texts) */
+		static int slot[2][NREP][NPROD][NPROD][3][4];
+		int *sl = &slot[f][rep][pa][pb][e + 1][(r + 2) & 3];
+		if (r != e && !replay && *sl && (double)rda >= ex.viol[*sl - 1].ord) {
+			struct ex_viol_s *vv = ex.viol + (*sl - 1);
+			vv->n++;
+			if ((double)rda > vv->hi) {
+				vv->hi = (double)rda;
+			}
+			bad++;
+			continue;
+		}
 		if (r != e || replay) {
 			char key[160], cas[96], cmd[160], ta[64] = "", tb[64] = "", da[16], db[16];
 			const struct rc_day *qa = rc_get(rda), *qb = rc_get(rdb);
@@ -190,7 +210,9 @@ judge_dates(int rep, int pa, int pb, int rda, int rdb, const struct dt_dt_s *a, 
 			snprintf(key, sizeof(key), "%s rep=%s prod=%c%c want=%s got=%s", f ? "dtcmp" : "dcmp", rep_name[rep],
 				 prod_name[pa], prod_name[pb], sgn_name(e), sgn_name(r));
 			snprintf(cas, sizeof(cas), "D %d %d %d %d %d", rep, pa, pb, rda, rdb);
-			if (pa == P_PARSE && pb == P_PARSE && rep != R_DAISY) {
+			if (pa == P_PARSE && pb == P_PARSE && rep_ifmt[rep]) {
+				snprintf(cmd, sizeof(cmd), "dtest -i %s %s --cmp %s; echo $?", rep_ifmt[rep], ta, tb);
+			} else if (pa == P_PARSE && pb == P_PARSE && rep != R_DAISY) {
 				snprintf(cmd, sizeof(cmd), "dtest %s --cmp %s; echo $?", ta, tb);
 			} else {
 				cmd[0] = '\0';
@@ -198,6 +220,11 @@ judge_dates(int rep, int pa, int pb, int rda, int rdb, const struct dt_dt_s *a, 
 			ex_viol(key, rda, cas, cmd[0] ? cmd : NULL,
 				"%s of %s-held %s (%c, day %s) and %s (%c, day %s) answers '%s', the timeline says '%s'",
 				f ? "dt_dtcmp" : "dt_dcmp", rep_name[rep], ta, prod_name[pa], da, tb, prod_name[pb], db, sgn_name(r), sgn_name(e));
+			for (int i = 0; i < ex.nviol; i++) {
+				if (!strcmp(ex.viol[i].key, key)) {
+					*sl = i + 1;
+				}
+			}
 		}
 	}
 	return bad;
@@ -320,7 +347,7 @@ do_nbr_year(int y)
 		if (ex_want_sample()) {
 			char da[16];
 			day_str(da, sizeof(da), rd);
-			ex_sample("NBR day %s x 6 representations x producers {P,C,A}^2 x day+{0,1,7,27..31,365,366}, both orders", da);
+			ex_sample("NBR day %s x 9 representations x producers {P,C,A}^2 x day+{0,1,7,27..31,365,366}, both orders", da);
 		}
 	}
 	++*c_traces;
@@ -364,6 +391,9 @@ dt_text(int rep, int rd, const struct tod_s *t, char *buf, size_t bsz, const cha
 		}
 		return 1;
 	}
+	if (REP_DAYNUM_P(rep)) {
+		return 0;	/* day numbers with a time part are fractions; only their dates are explored */
+	}
 	if (rep == R_DAISY) {
 		rep = R_YMD;
 	}
@@ -371,7 +401,7 @@ dt_text(int rep, int rd, const struct tod_s *t, char *buf, size_t bsz, const cha
 		return 0;
 	}
 	if (t->ns) {
-		static const char *const nsfmt[NREP] = {"%FT%T.%N", "%Y-%m-%c-%wT%T.%N", "%G-W%V-%uT%T.%N", "%Y-%jT%T.%N", "%Y-%m-%dbT%T.%N", NULL};
+		static const char *const nsfmt[NREP] = {"%FT%T.%N", "%Y-%m-%c-%wT%T.%N", "%G-W%V-%uT%T.%N", "%Y-%jT%T.%N", "%Y-%m-%dbT%T.%N", NULL, NULL, NULL, NULL};
 		*fmt = nsfmt[rep];
 		snprintf(buf, bsz, "%sT%02d:%02d:%02d.%09d", d, h, m, s, t->ns);
 	} else {
@@ -648,7 +678,7 @@ main(int argc, char *argv[])
 	npp = ex.thorough ? NPP : NPP_QUICK;
 	ex_meta("rule", "oracle: cmp(a,b) = sign(instant(a) - instant(b)), instant = reference day ordinal x 86400 + second (+ns). "
 		"Values: P parsed from standard text, C converted from the parsed ymd value, A = P(day-1)+1d; C and A only when their day count "
-		"is the model's. Judged: dt_dcmp and dt_dtcmp on dates in {ymd,ymcw,ywd,yd,bizda(business days),daisy}; dt_dtcmp on date-times "
+		"is the model's. Judged: dt_dcmp and dt_dtcmp on dates in {ymd,ymcw,ywd,yd,bizda(business days),daisy,ldn,jdn,mdn (read with -i ldn|jdn|mdn)}; dt_dtcmp on date-times "
 		"(same representations plus epoch counts given as @N and through %%s; pairs with the text T24:00:00 are "
 #if defined C08_JUDGE_MILITARY_MIDNIGHT
 		"judged as 00:00:00 of the next day, under their own class"
@@ -658,11 +688,11 @@ main(int argc, char *argv[])
 		"); dt_tcmp and dt_dtcmp on times; range predicates: 1 iff lower <= d <= upper, else 0, "
 		"bounds given in order. non-trivial = pair whose raw words are ordered differently from the days or which straddles a year "
 		"(dates); pair where day order and clock order disagree (date-times)");
-	ex_meta("bound", "WIN: all ordered pairs of %d eight-year windows (2,921 or 2,922 days each: %s) x 6 representations x %d producer pairs; "
-		"NBR: all 911,280 days x 6 representations x producers {P,C,A}^2 x day+{0,1,7,27..31,365,366} both orders; "
+	ex_meta("bound", "WIN: all ordered pairs of %d eight-year windows (2,921 or 2,922 days each: %s) x 9 representations x %d producer pairs; "
+		"NBR: all 911,280 days x 9 representations x producers {P,C,A}^2 x day+{0,1,7,27..31,365,366} both orders; "
 		"DT: (%d seam days x %d times incl. two nanosecond values and 24:00:00)^2 x 8 representations; "
 		"T: all 86,400 seconds x second+{0,1,59,60,61,3599,3600,3601,43200} both orders, and (T7 + every hour boundary -1/0/+1 s)^2; "
-		"RNG: all 27,000 triples of %d thirty-value windows x 6 (dates) / 8 (date-times) representations",
+		"RNG: all 27,000 triples of %d thirty-value windows x 9 (dates) / 8 (date-times) representations",
 		nwin, ex.thorough ? "1897 1997 1601 4088 2009 2096 2396 1969" : "1897 1997 1601 4088", npp, NDTDAY, NTOD, NRNGWIN);
 
 	/* WIN */
